@@ -170,7 +170,7 @@ pub fn run(rep: &mut Report, driver: &str, workers: usize, thorough: bool, seed:
     let model = par_batch(driver, workers, &reqs);
     let mut sr = StreamReport::new(
         "poll-schedules",
-        "7 rulesets (cached / uncached / failing user functions, lazy and strict operators, references missing only on the branch one input takes, a cacheable call completed before a suspending one) x suspension patterns (each user-function call returns Pending 0..3 times) x cacheability; two evaluations of ONE shared RuleSet on different inputs polled by a hand-rolled executor (no-op waker) under EVERY interleaving of their polls (up to 924 schedules per case; larger cases: 400 sampled), every abandonment point of one evaluation (dropped after j polls) followed by a fresh evaluation — with a second evaluation in flight, and alone followed by two fresh evaluations —, every sequence of three completed evaluations over the two inputs, and 3 consecutive evaluations; compared per evaluation: outcomes and the order of its own user-function invocations, against the model's sequential result",
+        "7 rulesets (cached / uncached / failing user functions, lazy and strict operators, references missing only on the branch one input takes, a cacheable call completed before a suspending one) x suspension patterns (each user-function call returns Pending 0..3 times) x cacheability; two evaluations of ONE shared RuleSet on different inputs polled by a hand-rolled executor (no-op waker) under EVERY interleaving of their polls (up to 924 schedules per case; larger cases: 400 sampled), every abandonment point of one evaluation (dropped after j polls) followed by a fresh evaluation — with a second evaluation in flight, and alone followed by four fresh evaluations —, every sequence of three completed evaluations over the two inputs, and 3 consecutive evaluations; compared per evaluation: outcomes and the order of its own user-function invocations, against the model's sequential result",
         false,
     );
     let max_sched = if thorough { 924 } else { 300 };
@@ -273,8 +273,8 @@ pub fn run(rep: &mut Report, driver: &str, workers: usize, thorough: bool, seed:
                 }
             }
         }
-        // (b2) abandon an evaluation after j polls with nothing else in flight, then TWO fresh evaluations (a resource that
-        //      is handed back dirty by the dropped future may only reach the second one)
+        // (b2) abandon an evaluation after j polls with nothing else in flight, then FOUR fresh evaluations over both inputs (a resource
+        //      handed back dirty by the dropped future may reach the next user of the same input, or a later one)
         for j in 0..n0 {
             let r = catch_unwind(AssertUnwindSafe(|| {
                 let mut a = mk_fut(&rs, &c.facts[0]);
@@ -283,7 +283,7 @@ pub fn run(rep: &mut Report, driver: &str, workers: usize, thorough: bool, seed:
                 }
                 drop(a);
                 let mut res = vec![];
-                for k in [1usize, 0, 0] {
+                for k in [0usize, 1, 0, 0] {
                     shared.log.lock().unwrap().clear();
                     let o = block_on(mk_fut(&rs, &c.facts[k]));
                     let log = shared.log.lock().unwrap().clone();
